@@ -109,6 +109,7 @@ Record ext (s s' : db) : Prop := {
   ext_in : d_in s' = d_in s;
   ext_cell : d_cell s' = d_cell s;
   ext_pcell : d_pcell s' = d_pcell s;
+  ext_evfault : d_evfault s = None -> d_evfault s' = None;
   ext_seen : forall q r, seen s q r -> seen s' q r;
   ext_valid : forall q m, d_memo s q = Some m -> m_verified m = cur s -> m_val m <> None ->
               d_memo s' q = Some m
@@ -118,12 +119,12 @@ Lemma ext_refl s : ext s s.
 Proof. constructor; auto. Qed.
 
 Lemma ext_cur s s' : ext s s' -> cur s' = cur s.
-Proof. intros [Hr _ _ _ _ _]. unfold cur. rewrite Hr. reflexivity. Qed.
+Proof. intros [Hr _ _ _ _ _ _]. unfold cur. rewrite Hr. reflexivity. Qed.
 
 Lemma ext_trans s1 s2 s3 : ext s1 s2 -> ext s2 s3 -> ext s1 s3.
 Proof.
   intros H12 H23. pose proof (ext_cur _ _ H12) as Hc.
-  destruct H12 as [a1 b1 c1 d1 e1 f1], H23 as [a2 b2 c2 d2 e2 f2].
+  destruct H12 as [a1 b1 c1 d1 g1 e1 f1], H23 as [a2 b2 c2 d2 g2 e2 f2].
   constructor; try congruence; auto.
   intros q m Hm Hv Hx. apply f2; [apply f1; assumption | rewrite Hc; exact Hv | exact Hx].
 Qed.
@@ -151,9 +152,15 @@ Definition stack_ok (s : db) (q : qkey) : Prop :=
 (* panics that can escape a Get on an acyclic program: the backdate-violation assertion, or
    an injected fault -- and the latter only while some fault switch is on *)
 Definition allowed (s : db) (p : panic) : Prop :=
-  p = PBackdate \/ (p = PInjected /\ exists c, d_pcell s c <> 0).
+  p = PBackdate \/ (p = PInjected /\ ((exists c, d_pcell s c <> 0) \/ d_evfault s <> None)).
 
-Lemma allowed_ext s s' p : d_pcell s' = d_pcell s -> allowed s' p -> allowed s p.
-Proof. intros He [-> | [-> (c & Hc)]]; [left; reflexivity | right; split; [reflexivity|]]. exists c. rewrite <- He. exact Hc. Qed.
+Lemma allowed_ext s s' p :
+  d_pcell s' = d_pcell s -> (d_evfault s = None -> d_evfault s' = None) ->
+  allowed s' p -> allowed s p.
+Proof.
+  intros He Hf [-> | [-> [(c & Hc) | Hn]]]; [left; reflexivity | right; split; [reflexivity|] ..].
+  - left. exists c. rewrite <- He. exact Hc.
+  - right. intros H0. apply Hn. apply Hf. exact H0.
+Qed.
 
 End Inv.
